@@ -5,6 +5,7 @@ import QR.Proofs.Except
 import QR.Proofs.MaskChoice
 import QR.Proofs.SourceTieC09
 import QR.Proofs.Pinned
+import QR.Proofs.SourceTieD6a
 /-
 C09 - automatic mask = first minimiser of the penalty over the eight trial symbols; explicit mask used as given.
 Against the Spec (`C09_chooseMask`): the mask recorded in and applied to a compiled symbol is `Spec.chooseMask` of that
@@ -183,6 +184,34 @@ theorem C09_source_loop (st : Nat × Nat) (i lost : Nat) :
     pickMask st i lost = (if Gen.Code.pick_update i st.1 lost then (lost, i) else st) ∧
     Gen.Code.mask_candidates = 8 ∧ Gen.Code.mask_trial_call = "self.makeImpl(True, i)" :=
   ⟨QR.SourceTie.pick_eq st i lost, QR.SourceTie.candidates⟩
+
+/-! ### Source tie, part 4 (T2 plugin `tools/t2_fragments/frag_d6.py`): small leftovers, translated whole from /repo's current
+    Python AST (`QR.Gen.Code.lo_*`, regenerated on every run). Restated verbatim from `QR/Proofs/SourceTieD6*.lean`. -/
+section SourceTieD6
+open QR.Model QR.Gen.Code QR.SourceTieD6
+
+/-- the callees of the module-level `qrcode.make(data=None, **kwargs)` (qrcode/main.py), in statement order -/
+theorem C09_source_make_literals : lo_make_callees = ("QRCode", "add_data", "make_image") ∧ lo_make_data_default = "None" :=
+  QR.SourceTieD6.make_literals
+
+/-- `qrcode.make()`: the Model's shortcut (`construct`, then `Op.addData`, then `Op.makeImage`) is the translated statement
+    sequence - the constructor gets `**kwargs` and nothing else, `add_data` gets `data` only, `make_image()` no arguments -/
+theorem C09_source_makeShortcut_src (g : Global) (kw : MakeKw) (data : Bytes) :
+    makeShortcut g kw data =
+      lo_make (fun kw : MakeKw => (construct kw.version kw.level kw.boxSize kw.border kw.mask).map (fun s => (g, s)))
+        (fun st d => .ok (step st (.addData d 20)).1) (fun st => .ok (step st .makeImage)) kw data :=
+  QR.SourceTieD6.makeShortcut_src g kw data
+
+/-- `qrcode.make()` keeps the settings: the object `make_image()` compiles carries the mask, version, level, border and box
+    size of the keyword arguments (`Model.construct`) and exactly the segments of `data` -/
+theorem C09_source_makeShortcut_settings (g : Global) (kw : MakeKw) (data : Bytes) (s : QRState)
+    (h : construct kw.version kw.level kw.boxSize kw.border kw.mask = .ok s) :
+    makeShortcut g kw data = .ok (step (g, { s with dataList := addData data 20 }) .makeImage) ∧
+    s.mask = kw.mask.map Int.toNat ∧ s.version = (kw.version.getD 0).toNat ∧ s.level = kw.level ∧
+    s.border = kw.border.toNat ∧ s.boxSize = kw.boxSize :=
+  QR.SourceTieD6.makeShortcut_settings g kw data s h
+
+end SourceTieD6
 
 /-- the Python functions this property's model mirrors have, in /repo's current working tree, exactly the normalised
     ASTs the model was written and validated against (fingerprints regenerated by T1 on every run) -/
